@@ -13,30 +13,30 @@ CHECKS = {
          "Complete enumeration of all 256x128x128 byte triples for four factory implementations (incl. two third-party ones) and of every StructuredShortMessage value, against an independently written canonicalisation table. The input space is finite and small, so this decides the property outright for the implementations enumerated.",
          "Trusted: the harness's MIDI table (common/midi.rs); 'every factory implementation' is instantiated with Raw, Structured and two harness-defined implementors.", "4 C01"),
  "C02": (True, SWEEP, "bounded-exhaustive enumeration of all valid triples against the MIDI 1.0 status table",
-         "Every classification method and accessor on all 2^21 valid triples x 3 implementations, plus all 256 type bytes, compared with a table oracle written from the specification.",
+         "Every classification method and accessor on all 2^21 valid triples x 3 implementations (generic code, method-call syntax on the concrete types, and &&, &mut, Box, Rc, Arc receivers), plus all 256 type bytes, compared with a table oracle written from the specification; every ordered pair of status bytes classified back to back on one thread (history independence). Supplementary, labelled as sampling: 40 (400) processes x 16 free-running threads against the same table.",
          "Trusted: the harness's table oracle.", "4 C02"),
  "C03": (True, SWEEP, "bounded-exhaustive differential enumeration over 4 representations x all valid triples, plus re-feeding every explored scanner transition in each representation",
-         "All 20 trait methods and all 16 ordered conversions on every valid triple for Raw/Structured/two foreign implementors; scanners re-fed with every representation at every state of their fixpoints.",
+         "All 20 trait methods and all 25 ordered conversions on every valid triple for Raw/Structured/three foreign implementors (one overrides to_bytes, one overrides from_bytes to be stricter); scanners re-fed with every representation at every state of their fixpoints.",
          "'Any third-party type' is a quantifier over programs; instantiated with two implementors exercising the two documented extension points.", "4 C03"),
- "C04": (True, SWEEP, "bounded-exhaustive enumeration of conversion/constructor/parser inputs in two feature configurations",
-         "All ~150 conversions, `new`, FromStr and constants in configurations std and no-default-features: 8/16-bit and newtype sources complete, 32-bit complete in thorough, wider sources over a truncation alphabet; range audit of every message field over all triples.",
+ "C04": (True, SWEEP, "bounded-exhaustive enumeration of conversion/constructor/parser inputs in two feature configurations and on a 32-bit target",
+         "All ~150 conversions, `new`, FromStr and constants in configurations std and no-default-features: 8/16-bit and newtype sources complete, 32-bit complete in thorough, wider sources over a truncation alphabet; all 7-bit ASCII strings to length 3 (4) and every Unicode scalar alone / next to a digit; range audit of every message field over all triples; the conversions once more with a 32-bit usize (harness_p32 interpreted by Miri for i686).",
          "64/128-bit and pointer-sized sources are covered over a structured finite alphabet (low 16 bits x high-bit patterns), not their whole range.", "4 C04"),
  "C05": (True, SWEEP, "bounded-exhaustive enumeration against reference arithmetic and a reference numeral recogniser",
-         "Value preservation of every conversion in and out, parsing of all strings over a 14-symbol alphabet up to length 4 (6 thorough) plus structured numerals, Display round trip for every value, ordering for all pairs.",
-         "Other Unicode is represented by two symbols; U14 ordering is all-pairs only in the thorough tier.", "4 C05"),
+         "Value preservation of every conversion in and out, parsing of all strings over a 14-symbol alphabet up to length 4 (6 thorough), all 7-bit ASCII strings up to length 3 (4), every Unicode scalar alone / before / after a digit, plus structured numerals, Display round trip for every value, ordering for all pairs.",
+         "Non-ASCII characters appear alone or next to one digit only; U14 ordering is all-pairs only in the thorough tier; the 32-bit part covers conversions, not parsing.", "4 C05"),
  "C06": (True, SWEEP, "bounded-exhaustive enumeration of every constructor argument tuple",
-         "Every argument tuple of the 19 specific constructors and the complete data grid of the 3 generic ones for 3 implementations, test_util shorthands against the factory and through out-of-range values in every position.",
+         "Every argument tuple of the 19 specific constructors and the complete data grid of the 3 generic ones for 4 implementations (incl. a third-party type with a stricter from_bytes), test_util shorthands against the factory and through out-of-range values in every position.",
          "Trusted: the harness's table oracle.", "4 C06"),
 }
 MORE = {
  "C07": (True, MC, "exhaustive enumeration of the 14-bit CC message space x every reachable concrete scanner state (explicit-state fixpoint of the real scanner)",
-         "Encoder: all 16x32x16384 messages and all 128 controller numbers for the panic condition. Inversion: the complete concrete reachable state set of the real scanner on a channel (4097 states, from the xs fixpoint) x every message of that channel (2.1e9 state-message cases on one channel in the quick tier, on all 16 in thorough).",
+         "Encoder: all 16x32x16384 messages and all 128 controller numbers for the panic condition; every ordered pair of messages over 3072 boundary messages encoded back to back (history independence). Inversion: the complete concrete reachable state set of the real scanner on a channel (4097 states, from the xs fixpoint) x every message of that channel (2.1e9 state-message cases on one channel in the quick tier, on all 16 in thorough).",
          "One channel at a time; the other 15 idle (isolation is C15).", "4 C07"),
  "C08": (True, MC, "explicit-state model checking of the real scanner to a complete concrete fixpoint against a reference model",
          "Complete concrete reachability fixpoint of the real ControlChange14BitMessageScanner per channel (all 64x128 contributing inputs, reset, non-contributing class) in product with the statement's reference model; every transition executes the real feed/reset; every BFS path re-derived on a fresh object; stateright cross-count in thorough.",
          "Trusted: the reference model (one Option<(n,v)>). One channel at a time.", "4 C08"),
  "C09": (True, SWEEP, "bounded-exhaustive enumeration of constructor inputs against the statement's slot layout",
-         "Quick: every number x boundary values and every value x boundary numbers on every channel, all 8 constructors, both byte orders, Raw and Structured; thorough: the full ~3.4e10 product (wall-capped, cap reported).",
+         "Quick: every number x boundary values and every value x boundary numbers on every channel, all 8 constructors, both byte orders, Raw and Structured; every ordered pair over a boundary domain of 2100 (4800) messages encoded back to back on one thread (history independence); supplementary sampling of concurrent use (40 / 400 processes x 16 threads); thorough: the full ~3.4e10 product (wall-capped, cap reported).",
          "Trusted: the harness's encoding table.", "4 C09"),
  "C10": (True, MC, "exhaustive enumeration of messages and running forms from every state of an explicit-state fixpoint of the real scanner",
          "Every state of the abstract reachability fixpoint of the real scanner x ~1000 boundary messages through the real encoder; running forms up to k=4 / k=3 from every such state; four dirty states x per-dimension complete message sets (all messages in thorough).",
@@ -62,10 +62,10 @@ MORE = {
  "C17": (True, MC, "explicit-state fixpoints with reset/copy probes in every reachable state and replay of every BFS path on a fresh object",
          "In every reachable state (complete concrete state space for the 14-bit scanner): reset()==new() by PartialEq AND by behaviour (all continuations up to 3 feeds, with polls, compared with a new scanner), also after storms of 256 / 65536 resets (thorough: 2^32 resets in a row per scanner type) and after traffic on all 16 channels; copies evolve identically; every path re-derived on a fresh scanner (catches state outside the value); three-channel products; new()==default().",
          "Continuations of the behavioural comparison are bounded to 3 feeds; PartialEq is used for the equality clause only.", "4 C17"),
- "C18": (True, SWEEP, "exhaustive re-execution of the API domains and scanner fixpoints inside allocation-counting regions and catch_unwind in an unoptimised build, three configurations",
+ "C18": (True, SWEEP, "exhaustive re-execution of the API domains and scanner fixpoints inside allocation-counting regions and catch_unwind in an unoptimised build, three configurations; polling scanner also with the mock clock moving on after every reading",
          "Counting #[global_allocator] + catch_unwind around every API region in opt-level-0 builds of configurations std (mock clock), no-default-features and real clock; documented panics must occur.",
          "Counts allocations made on the calling thread through the global allocator; does not see stack usage.", "4 C18"),
- "C19": (True, SWEEP, "bounded-exhaustive enumeration of deserializer inputs (primitive value deserializers and serde_json::Value trees)",
+ "C19": (True, SWEEP, "bounded-exhaustive enumeration of deserializer inputs (primitive value deserializers and serde_json::Value trees, human-readable and not) in the four combinations of the std and serde_repr features",
          "Every u8/i8/u16/i16 and boundary/truncation 32/64-bit values for the six integer types; composite types over boundary sets containing the first invalid value of every field, all variants; round trips of natural representations.",
          "serde_json::Value is used as the generic self-describing deserializer; other data formats are assumed to behave like it.", "4 C19"),
 }
